@@ -1180,3 +1180,41 @@ def _twins5():
 
 for _pid, _vs in _twins5().items():
     REGISTRY[_pid] = _merged(REGISTRY[_pid], (lambda vs: (lambda: vs))(_vs))
+
+
+def _twins6():
+    return {
+        "C16": [
+            V("twin-flatten-through-a-local", "entity", "flatten", "    return Flatten(var)", "    flattened = Flatten(var)\n    return flattened", kind="twin"),
+        ],
+        "C11": [
+            V("twin-call-guard-negated", S, "Call._apply_mapping_",
+              "        if len(self._args_) > 0 or len(self._kwargs_) > 0:\n            yield HashedValue(id_=value.id_, value=value.value(*self._args_, **self._kwargs_))\n        else:\n            yield HashedValue(id_=value.id_, value=value.value())",
+              "        if not self._args_ and not self._kwargs_:\n            yield HashedValue(id_=value.id_, value=value.value())\n        else:\n            yield HashedValue(id_=value.id_, value=value.value(*self._args_, **self._kwargs_))", kind="twin"),
+            V("twin-call-always-forwards", S, "Call._apply_mapping_",
+              "        if len(self._args_) > 0 or len(self._kwargs_) > 0:\n            yield HashedValue(id_=value.id_, value=value.value(*self._args_, **self._kwargs_))\n        else:\n            yield HashedValue(id_=value.id_, value=value.value())",
+              "        yield HashedValue(id_=value.id_, value=value.value(*self._args_, **self._kwargs_))", kind="twin"),
+        ],
+        "C20": [
+            V("twin-wildcard-hash-is-id", U, "ALL.__hash__", "        return hash(id(self))", "        return id(self)", kind="twin"),
+            V("twin-coverage-test-as-loop", CD, "SeenSet.check",
+              "            if all(assignment[k] == v if k in assignment else False for k, v in constraint.items()):\n                return True",
+              "            for k, v in constraint.items():\n                if k not in assignment or assignment[k] != v:\n                    break\n            else:\n                return True", kind="twin"),
+        ],
+        "C05": [
+            V("twin-right-cache-keys-inline", S, "LogicalOperator.__post_init__",
+              "        right_vars = self.right._unique_variables_.filter(lambda v: not isinstance(v, Literal))\n        self.right_cache.keys = [v.id_ for v in right_vars]",
+              "        self.right_cache.keys = [v.id_ for v in self.right._unique_variables_.filter(lambda v: not isinstance(v, Literal))]", kind="twin"),
+        ],
+        "C12": [
+            V("twin-rule-flag-nested-tests", S, "SymbolicExpression.__enter__", "        if in_rule_mode and isinstance(self, ResultQuantifier):\n",
+              "        if in_rule_mode:\n          if isinstance(self, ResultQuantifier):\n", kind="twin"),
+            V("twin-left-flag-set-later", S, "ElseIf._evaluate__",
+              "                self.left._is_false_ = True\n                right_prev = self.right._eval_parent_\n                self.right._eval_parent_ = self\n",
+              "                right_prev = self.right._eval_parent_\n                self.right._eval_parent_ = self\n                self.left._is_false_ = True\n", kind="twin"),
+        ],
+    }
+
+
+for _pid, _vs in _twins6().items():
+    REGISTRY[_pid] = _merged(REGISTRY[_pid], (lambda vs: (lambda: vs))(_vs))
